@@ -197,6 +197,20 @@ func (a *Authority) AuthorizeAdminToken(r *http.Request, token string) (*linkedc
 	return adm, nil
 }
 
+// reuseKeyMaterial returns what a token without an id is identified by: its
+// signed payload. All the spellings of one token that the parser accepts (white
+// space, base64 padding, JSON serialization, unprotected headers, the second
+// valid form of an ECDSA signature) carry the same payload, the presented
+// string differs.
+func reuseKeyMaterial(token string) []byte {
+	if jws, err := jose.ParseJWS(token); err == nil {
+		if payload := jws.UnsafePayloadWithoutVerification(); len(payload) > 0 {
+			return payload
+		}
+	}
+	return []byte(token)
+}
+
 // UseToken stores the token to protect against reuse.
 //
 // This method currently ignores any error coming from the GetTokenID, but it
@@ -204,7 +218,7 @@ func (a *Authority) AuthorizeAdminToken(r *http.Request, token string) (*linkedc
 func (a *Authority) UseToken(token string, prov provisioner.Interface) error {
 	if reuseKey, err := prov.GetTokenID(token); err == nil {
 		if reuseKey == "" {
-			sum := sha256.Sum256([]byte(token))
+			sum := sha256.Sum256(reuseKeyMaterial(token))
 			reuseKey = strings.ToLower(hex.EncodeToString(sum[:]))
 		}
 		ok, err := a.db.UseToken(reuseKey, token)
